@@ -5,7 +5,8 @@ inumbers / parse_criteria helpers of utils.py)
 
 case kinds (field 'kind'; 'via' = lit | var | fn says how the call is made: formula text with array literals, formula over
 variables, direct call of the registered function):
-  stat   a number list under one of the 27 names of STAT_FNS in two arrangements (args / args2): textbook value + equal outcome
+  stat   a number list under one of the 27 names of STAT_FNS in two arrangements (args / args2): textbook value + equal outcome;
+         var / fn cases with an array argument a third time with every top-level array handed over as a Python tuple (r3)
   large  LARGE(arr, k) on two arrangements of the same items: the k-th largest item, twice
   slope  SLOPE(y1..yn, x1..xn): the least-squares slope
   crit   SUMIF / COUNTIF / AVERAGEIF / SUMIFS / AVERAGEIFS / MAXIFS: the aggregate over exactly the selected items
@@ -44,7 +45,12 @@ RULE = ('seeded, not exhaustive: 3119 fixed cases + 3016*sc generated ones, sc =
         'with an item <= 0): textbook value on the first arrangement, same outcome of the two; GEOMEAN/HARMEAN lists '
         'made positive 80%, 25% replaced by 12/20/30/40 items of large (1e8..1e9, integers and x.5) or tiny (k/2^40, '
         'k < 4096) magnitude; PRODUCT of more than 12 items keeps |v| <= 30 (a larger item is replaced by an integer '
-        'in -9..9). (large, 250*sc) LARGE(arr,k), arr such a list nested to depth 3, one k drawn from 1..n, second '
+        'in -9..9); a stat case that is not made as lit, has at least one array among its arguments '
+        'and no raw sub-expression (about 800 of the 1433 stat cases of quick at scale 1: some 420 var, 380 fn) is evaluated a THIRD time (r3): the first '
+        'arrangement as formula over variables on the parser (whatever its own via), every top-level array argument in a variable '
+        'holding a Python TUPLE of the same items (arrays nested inside it stay lists) - what a host variable holding a tuple or a host '
+        'function doing `return a, b, c` hands over: same outcome as the first result, compared like the second arrangement (exactly for '
+        'the exact names on integer / dyadic data, PRODUCT on integers; else 1e-12 relative; two non-values: the same code). (large, 250*sc) LARGE(arr,k), arr such a list nested to depth 3, one k drawn from 1..n, second '
         'arrangement shuffled and nested afresh: exactly the k-th largest item, both times. (slope, 200*sc) SLOPE on '
         '2n scalar arguments (y first), n in {2,3,4,5,8,12,20} (2 twice as likely): integer / dyadic lists (70%) or '
         '1-place decimals in -20..20, all-equal x broken up 9 times in 10, 30% rescaled by powers of two (x by 2^-17 '
@@ -110,7 +116,7 @@ TRUSTED = ['CPython statistics / sum / sorted / max / min / fnmatch (modelled by
            'logicals among the items are modelled by their integer value; opaque host objects are assumed unordered and '
            'unequal to everything',
            'a model answer (o tag) other than a symbolic sqrt / root is no opinion and accepted without comparison; the '
-           'second arrangement is never sent to the model; the direct path tells a raised exception from a returned error '
+           'second arrangement and the tuple run (r3) are never sent to the model; the direct path tells a raised exception from a returned error '
            'value, the formula path compares the error code only']
 ASSUMPTIONS = ['textbook value of MODE: any most frequent item (the model pins the first in the original order)',
                'GEOMEAN and HARMEAN are read on positive items (the harmonic and geometric means are defined for positive '
@@ -139,7 +145,10 @@ ASSUMPTIONS = ['textbook value of MODE: any most frequent item (the model pins t
                'SLOPE: the first half of the arguments are the y, the second half the x; all x equal must not give a value - '
                'demanded on integer / dyadic data only, on decimal or rescaled data nothing is demanded then',
                'COUNT and COUNTA count every item (the statement is about numeric items; the lists hold numbers only, empty '
-               'arrays add nothing)']
+               'arrays add nothing)',
+               'a Python tuple handed over by the host (as the value of a variable) is an array like the list of the same items: '
+               'the aggregate over it is the aggregate over the list (stat cases; only top-level arrays are turned into tuples, '
+               'and only under the 27 names of STAT_FNS)']
 EXHAUSTIVE = {'quick': False, 'thorough': False}
 
 ORDER_FREE = ['SUM', 'PRODUCT', 'AVERAGE', 'MIN', 'MAX', 'COUNT', 'MEDIAN', 'VAR', 'VAR.S', 'VAR.P', 'VARP', 'STDEV', 'STDEV.S',
